@@ -123,7 +123,10 @@ fn main() {
                         dsmall(&mut g, 4, 3, shard, nshards);
                     }
                 }
-                "drand" => drand(&mut g, &mut r, if thorough { 4000 } else { 250 }, if thorough { 200 } else { 40 }),
+                "drand" => {
+                    drand(&mut g, &mut r, if thorough { 4000 } else { 250 }, if thorough { 200 } else { 40 });
+                    dpad(&mut g, &mut r, if thorough { 4000 } else { 250 });
+                }
                 "lsmall" => {
                     exhaustive = true;
                     if thorough {
@@ -213,24 +216,52 @@ fn main() {
             println!("hash 0");
         }
         Some("stack") => {
-            let depth: usize = args[2].parse().unwrap();
+            // `stack <n>` = `stack nested <n>`; other shapes are LONG FLAT lists (no nesting at all)
+            let (shape, depth): (String, usize) = if args.len() >= 4 {
+                (args[2].clone(), args[3].parse().unwrap())
+            } else {
+                ("nested".into(), args[2].parse().unwrap())
+            };
             let h = std::thread::Builder::new()
                 .stack_size(2 * 1024 * 1024)
                 .spawn(move || {
+                    let key = |i: usize| (i as u32).to_be_bytes().to_vec();
                     // peer = local spans [i, 2d-i], i < d, different digests: a strictly nested chain
-                    let mk = |h: u8| -> Vec<tree::OwnedRange> {
-                        (0..depth)
-                            .map(|i| {
-                                (
-                                    (i as u32).to_be_bytes().to_vec(),
-                                    ((2 * depth - i) as u32).to_be_bytes().to_vec(),
-                                    [h; 16],
-                                )
-                            })
-                            .collect()
+                    let nested = |h: u8| -> Vec<tree::OwnedRange> {
+                        (0..depth).map(|i| (key(i), key(2 * depth - i), [h; 16])).collect()
                     };
-                    let l = mk(1);
-                    let p = mk(2);
+                    // a root [0, 4n+4] with digest `hr` followed by n disjoint, non-touching children
+                    // [4i+1, 4i+2] with digest `hc`
+                    let flat = |hr: u8, hc: u8| -> Vec<tree::OwnedRange> {
+                        let mut v = vec![(key(0), key(4 * depth + 4), [hr; 16])];
+                        v.extend((0..depth).map(|i| (key(4 * i + 1), key(4 * i + 2), [hc; 16])));
+                        v
+                    };
+                    let (l, p) = match shape.as_str() {
+                        "nested" => (nested(1), nested(2)),
+                        // inconsistent root, every child consistent: n holes punched out of one range
+                        "flat-consistent" => (flat(1, 7), flat(2, 7)),
+                        // inconsistent root and inconsistent children
+                        "flat-inconsistent" => (flat(1, 3), flat(2, 4)),
+                        // no common root: n top-level ranges on both sides, alternately equal / different
+                        "flat-toplevel" => {
+                            let mk = |x: u8| -> Vec<tree::OwnedRange> {
+                                (0..depth).map(|i| (key(4 * i + 1), key(4 * i + 2), [if i % 2 == 0 { 9 } else { x }; 16])).collect()
+                            };
+                            (mk(1), mk(2))
+                        }
+                        // n copies of one range
+                        "dups" => {
+                            let mk = |x: u8| -> Vec<tree::OwnedRange> { (0..depth).map(|_| (key(1), key(9), [x; 16])).collect() };
+                            (mk(1), mk(2))
+                        }
+                        // local empty, peer flat
+                        "flat-empty-local" => (vec![], flat(2, 7)),
+                        other => {
+                            eprintln!("unknown shape {other}");
+                            std::process::exit(2)
+                        }
+                    };
                     let d = tree::diff_owned(&l, &p);
                     match d {
                         Some(d) => println!("ok ranges={}", d.len()),
